@@ -237,6 +237,8 @@ def kernel_kill_counts_only_a_populated_victim(ctx, tag):
 
 
 def run(ctx):
+    from .C17 import kill_count_is_successful_signals
+    kill_count_is_successful_signals(ctx)
     from .C01 import children_are_direct
     children_are_direct(ctx)
     kernel_kill_counts_only_a_populated_victim(ctx, "C03")
